@@ -57,7 +57,7 @@ def setup_atoms(cx):
 
 atoms_loop = FunctionContract(
     F, 'write_molecule_itp', 'C02', short='write_molecule_itp[atoms]', setup=setup_atoms, spec_env=dict(Key=Key),
-    region=dict(start="for idx, original_idx in enumerate(molecule.sorted_nodes, start=1):",
+    region=dict(start="for idx, original_idx in enumerate(molecule.sorted_nodes",
                 end="for line in post_section_lines.get('atoms', []):"),
     requires=["forall(lambda i: implies(0 <= i and i < len(order), opos(order[i]) == i))"],      # no node twice
     ensures=[
